@@ -9,6 +9,17 @@ ROOT = os.path.dirname(os.path.dirname(os.path.abspath(__file__)))
 
 # id -> (category, technique, level text, level note, design ref)
 CHECKS = {
+    'C06': ('exploration', 'seeded truncations / mutations of corpus files, random bytes and cut generated programs x nine languages x in-range '
+            'configs on the ASan+UBSan binary; validity predicate on status, signal, sanitizer report, CPU time, stdout, stderr',
+            'Line-boundary truncations of corpus files (thorough: every boundary of every file), line / token / byte mutations with tails '
+            'that end the file inside every kind of construct, random byte strings and generated C / C++ programs cut at a random byte are '
+            'run - also under a foreign language, with default, profile and random in-range configs, with and without -q - on a binary '
+            'built with AddressSanitizer and UBSan: the exit status must be 0, 1 or a documented EX_* value, there must be no signal, no '
+            'sanitizer report, no uncaught exception and no CPU-limit hit, and a non-zero status must come with empty stdout and (without '
+            '-q) a diagnostic.',
+            'Bounded time is decided by a CPU limit (8 s in the search, confirmed with 20 s); inputs are capped at 64 KiB; corpus files '
+            'whose truncations are known to hang are left out of the random pools and replayed from regress/ instead; libFuzzer is not '
+            'used in this revision (out-of-process mutation only).', 'DESIGN.md §3 C06'),
     'C01': ('translation_validation', 'Hypothesis-generated C and C++ programs + compilable corpus files x single-option sweep / random / '
             'whole-family configs; differential oracle: gcc/g++ -O1 -S of output == of input, uncrustify exits 0',
             'Grammar-generated C programs and C++ translation units in random layouts and the ~330 corpus files that compile stand-alone are '
